@@ -263,6 +263,11 @@ PROPS["C14"] = {
     "claimed": False,
 }
 
+# RobustUniqueIndexSet::acquire: loop .0 is the scan over the cells (capacity + 1 unwindings), loop .1 the retry when
+# the generation counter moved during the scan.  In the sequential harnesses nothing moves (bound 2), in the recovery
+# race acquire only runs as an uninterrupted inner operation (bound 2 as well); unwinding assertions stay on.
+_ROBUST_SEQ = {"RobustUniqueIndexSet7acquire&.1": 2, "RobustUniqueIndexSet28increment_generation_counter": 2}
+_ROBUST_RACE = {"RobustUniqueIndexSet7acquire&.1": 2}
 PROPS["C09"] = {
     "bounds": "capacities 1..=4, sequential histories of 4-6 symbolic acquire/release(lock-if-last) operations; robust "
               "set with 2 owners incl. recover; schedules: outer thread preempted before any shared-memory operation, "
@@ -281,10 +286,10 @@ PROPS["C09"] = {
           bounds="unwind 8; 6 steps"),
         H("c09::c09_uis_raii", covers=0, timeout=600, mem_gb=3, what="UniqueIndex RAII gives the index back on drop",
           bounds="unwind 8"),
-        H("c09::c09_robust_history_cap2", covers=3, timeout=1500, mem_gb=10,
+        H("c09::c09_robust_history_cap2", covers=3, timeout=1500, mem_gb=10, unwindset=_ROBUST_SEQ,
           what="StaticRobustUniqueIndexSet<2>: acquire/release(owner, mode)/recover(dead owner) history vs owner model",
           bounds="unwind 8; 3 steps (add/remove), 2 owners"),
-        H("c09::c09_robust_history_cap3", covers=4, timeout=5400, mem_gb=12, tiers=("thorough",),
+        H("c09::c09_robust_history_cap3", covers=4, timeout=5400, mem_gb=12, tiers=("thorough",), unwindset=_ROBUST_SEQ,
           what="robust set, capacity 3", bounds="unwind 5; 4 steps"),
         H("c09::sched::c09_s_uis_race_cap2", crate="hs", covers=2, timeout=2400, mem_gb=14, tiers=("quick",),
           what="two threads racing acquire/release on the real free list; exclusivity, bounds, legitimate failures, "
@@ -296,10 +301,12 @@ PROPS["C09"] = {
         H("c09::sched::c09_s_uis_race_cap2_lock_deep", crate="hs", covers=2, timeout=7200, mem_gb=30, tiers=("thorough",),
           what="lock-if-last race, 1 outer / 3 inner operations, preemption also before cell accesses", bounds="unwind 7"),
         H("c09::sched::c09_s_robust_recover_race", crate="hs", covers=2, timeout=2400, mem_gb=12, tiers=("quick",),
+          unwindset=_ROBUST_RACE,
           what="robust set: recovery of a dead owner preempted at every atomic operation while a second recoverer and "
                "a live owner (acquire/release) run in the gaps: exactly the dead owner's indices, each once; the live "
                "owner keeps its indices", bounds="unwind 6; capacity 2, 2 inner operations"),
         H("c09::sched::c09_s_robust_recover_race_deep", crate="hs", covers=2, timeout=7200, mem_gb=16, tiers=("thorough",),
+          unwindset=_ROBUST_RACE,
           what="robust recovery race with 3 inner operations", bounds="unwind 6"),
         H("c09::sched::c09_s_uis_race_cap1", crate="hs", covers=1, timeout=1800, mem_gb=8, tiers=("quick",),
           what="same, capacity 1", bounds="unwind 6; 1 outer / 2 inner operations"),
